@@ -68,7 +68,7 @@ theorem G.flags {k : Nat} {s s' t : FState} (h : G k s s') (hr : t.rout = s'.rou
 
 theorem G_stepWord6 {s : FState} (sp : Bool) (c : Rune) (h : s.nesting ≤ 10) : G 1 s (stepWord6 s sp c) := by
   unfold stepWord6
-  split <;> exact ⟨by simp, h⟩
+  exact ⟨by simp, h⟩
 
 theorem G_stepWord5 {s : FState} (sp : Bool) (c : Rune) (h : s.nesting ≤ 10) : G 2 s (stepWord5 s sp c) := by
   unfold stepWord5
@@ -124,25 +124,21 @@ theorem G_flushOpen {s : FState} (h : s.nesting ≤ 10) : G 14 s (flushOpen s) :
     · exact G.refl h3.2
   exact (G.trans (G.trans (G.trans h1 h2) h3) h4).mono (by omega)
 
-theorem G_stepBrace {s : FState} (sp : Bool) (c : Rune) (h : s.nesting ≤ 10) : G 17 s (stepBrace s sp c) := by
-  unfold stepBrace
-  split
-  · split
-    · split <;> exact ⟨by simp, h⟩
-    · split <;> exact ⟨by simp, h⟩
-  · split
-    · split
-      · exact (G_write rClose h).mono (by omega)
-      · have h1 : G 1 s ({ (if s.last != rNL then s.nextLine else s) with nesting := s.nesting - 1 }) := by
-          split
-          · exact ⟨by simp [FState.nextLine], by simp; omega⟩
-          · exact ⟨by simp, by simp; omega⟩
-        exact ((G.trans (G.trans h1 (G_indent h1.2)) (G_write rClose (G_indent h1.2).2)).mono (by omega)).flags rfl rfl
-    · exact G_stepWord sp c h
-
 /-- closes `G k s s'` goals where `s'` is `s` plus a constant number of writes / flag updates -/
 macro "gleaf" : tactic =>
   `(tactic| (constructor <;> (try simp [FState.nextLine]) <;> (try omega)))
+
+theorem G_stepBrace {s : FState} (sp : Bool) (c : Rune) (h : s.nesting ≤ 10) : G 17 s (stepBrace s sp c) := by
+  unfold stepBrace
+  split
+  · split <;> gleaf
+  · split
+    · have h1 : G 1 s ({ (if s.last != rNL then s.nextLine else s) with nesting := s.nesting - 1 }) := by
+        split
+        · exact ⟨by simp [FState.nextLine], by simp; omega⟩
+        · exact ⟨by simp, by simp; omega⟩
+      exact ((G.trans (G.trans h1 (G_indent h1.2)) (G_write rClose (G_indent h1.2).2)).mono (by omega)).flags rfl rfl
+    · exact G_stepWord sp c h
 
 theorem G_stepRegular2 {s : FState} (sp : Bool) (c : Rune) (h : s.nesting ≤ 10) : G 31 s (stepRegular2 s sp c) := by
   unfold stepRegular2
@@ -150,35 +146,36 @@ theorem G_stepRegular2 {s : FState} (sp : Bool) (c : Rune) (h : s.nesting ≤ 10
   · exact (G.trans (G_flushOpen h) (G_stepBrace sp c (G_flushOpen h).2) : G (14 + 17) _ _).mono (by omega)
   · exact (G_stepBrace sp c h).mono (by omega)
 
-theorem G_stepRegular {s : FState} (sp : Bool) (c : Rune) (h : s.nesting ≤ 10) : G 31 s (stepRegular s sp c) := by
+theorem G_stepRegular {s : FState} (sp ts : Bool) (c : Rune) (h : s.nesting ≤ 10) :
+    G 31 s (stepRegular s sp ts c) := by
   unfold stepRegular
   split
-  · exact (G_stepRegular2 (s := { s with comment := true }) sp c h).flags rfl rfl
-  · exact G_stepRegular2 sp c h
-
-theorem G_stepLiteral2 {t : FState} (c : Rune) (ht : t.nesting ≤ 10) : G 31 t (stepLiteral2 t c) := by
-  unfold stepLiteral2
-  split
+  · exact (G_stepRegular2 sp c h).flags rfl rfl
   · split
-    · gleaf
-    · gleaf
-  · split
-    · split
-      · gleaf
-      · gleaf
-    · split
-      · split <;> gleaf
-      · split
-        · gleaf
-        · split
-          · gleaf
-          · exact (G_stepRegular (s := { t with quoted := t.space && c == rDQ, space := false }) t.space c ht)
+    · exact (G_stepRegular2 (s := { s with comment := true }) sp c h).flags rfl rfl
+    · exact G_stepRegular2 sp c h
 
-theorem G_stepLiteral {s : FState} (c : Rune) (h : s.nesting ≤ 10) : G 31 s (stepLiteral s c) := by
+theorem G_stepLiteral {t : FState} (c : Rune) (ht : t.nesting ≤ 10) : G 31 t (stepLiteral t c) := by
   unfold stepLiteral
   split
-  · exact G_stepLiteral2 (t := { s with space := false }) c h
-  · exact G_stepLiteral2 c h
+  · split
+    · gleaf
+    · gleaf
+  · split
+    · gleaf
+    · split
+      · split
+        · gleaf
+        · gleaf
+      · split
+        · split <;> gleaf
+        · split
+          · gleaf
+          · split
+            · split
+              · exact (G.refl ht).mono (by omega)
+              · gleaf
+            · exact G_stepRegular t.space (t.space || t.tokenEnded) c ht
 
 theorem G_stepHeredoc {s : FState} (c : Rune) (h : s.nesting ≤ 10) : G 31 s (stepHeredoc s c) := by
   unfold stepHeredoc
@@ -188,26 +185,41 @@ theorem G_stepHeredoc {s : FState} (c : Rune) (h : s.nesting ≤ 10) : G 31 s (s
       · gleaf
       · gleaf
     · split
-      · exact G_stepLiteral (s := { s with marker := [], heredoc := 0 }) c h
-      · gleaf
+      · exact (G.refl h).mono (by omega)
+      · split
+        · exact G_stepLiteral (t := { s with marker := [], heredoc := 0 }) c h
+        · gleaf
   · split
     · split
-      · exact G_stepLiteral (s := { s with marker := [], closing := [], heredoc := 0 }) c h
+      · exact G_stepLiteral (t := { s with marker := [], closing := [], heredoc := 0 }) c h
       · gleaf
     · exact G_stepLiteral c h
-
-theorem G_step2 {s : FState} (c : Rune) (h : s.nesting ≤ 10) : G 31 s (step2 s c) := by
-  unfold step2
-  split
-  · gleaf
-  · exact G_stepHeredoc c h
 
 /-- one loop iteration writes at most 31 runes and keeps `nesting ≤ 10` -/
 theorem G_step {s : FState} (c : Rune) (h : s.nesting ≤ 10) : G 31 s (step s c) := by
   unfold step
   split
-  · exact G_step2 (s := { s with withinBackquote := !s.withinBackquote }) c h
-  · exact G_step2 c h
+  · gleaf
+  · exact G_stepHeredoc (s := { s with heredocStart := s.heredocStart && c == rCR }) c h
+
+/-- the brace written after the loop: at most 13 more runes -/
+theorem G_flushEnd {s : FState} (h : s.nesting ≤ 10) : G 13 s (flushEnd s) := by
+  unfold flushEnd
+  split
+  · have h1 : G 2 s (flush1 s) := by
+      unfold flush1
+      split
+      · exact (G.trans (G_nextLine h) (G_nextLine (s := s.nextLine) h)).flags rfl rfl
+      · exact ((G.refl h).mono (by omega)).flags rfl rfl
+    have h2 : G 10 (flush1 s) (flush2 (flush1 s)) := by
+      unfold flush2
+      split
+      · exact G_indent h1.2
+      · split
+        · exact (G_write rSP h1.2).mono (by omega)
+        · exact (G.refl h1.2).mono (by omega)
+    exact (G.trans (G.trans h1 h2) (G_write rOpen h2.2)).mono (by omega)
+  · exact (G.refl h).mono (by omega)
 
 /-- the whole loop: at most 31 runes per input rune -/
 theorem G_foldl (inp : List Rune) : ∀ {s : FState}, s.nesting ≤ 10 → G (31 * inp.length) s (inp.foldl step s) := by
